@@ -145,7 +145,10 @@ pub fn filter_set_object(name: &str, expr: &str) -> String {
     // "@nochanged <expr>": an object without the `changed:` attribute (removed from the RIPE database in 2016)
     let (changed, expr) = expr.strip_prefix("@nochanged ").map_or(("changed:        noc@example.net 20240101\n", expr), |e| ("", e));
     let (attr, expr) = expr.strip_prefix("@filter ").map_or(("mp-filter:", expr), |e| ("filter:   ", e));
-    format!("filter-set:     {name}\ndescr:          {descr}\n{attr}      {expr}\ntech-c:         DUMY-TEST\nadmin-c:        DUMY-TEST\nmnt-by:         MAINT-TEST\n{changed}source:         TEST")
+    // "@foldedremarks <expr>": other attributes of the object are folded over several lines as well, before
+    // and after the filter attribute; their continuation lines are not part of the filter
+    let (before, after, expr) = expr.strip_prefix("@foldedremarks ").map_or(("", "", expr), |e| ("remarks:        the customers of\n                AS65002 AND\n+               AS65004 OR\n", "remarks:        replaces\n                OR AS65002\n+               OR AS65004\n", e));
+    format!("filter-set:     {name}\ndescr:          {descr}\n{before}{attr}      {expr}\n{after}tech-c:         DUMY-TEST\nadmin-c:        DUMY-TEST\nmnt-by:         MAINT-TEST\n{changed}source:         TEST")
 }
 
 fn answer(db: &Db, query: &str) -> String {
